@@ -1364,6 +1364,9 @@ struct Stats {
     updates_checked: usize,
     order_checks: usize,
     idem_checks: usize,
+    timelock_rows: usize,
+    satisfier_calls: usize,
+    satisfier_ok: usize,
 }
 
 #[allow(clippy::too_many_arguments)]
@@ -1852,6 +1855,216 @@ fn mall_probe(pool: &Pool, lines: &mut Vec<String>) {
     );
 }
 
+/// plan -> update PSBT -> sign -> finalize, against update_input_with_descriptor -> sign -> finalize
+fn plan_differential(cx: &Ctx, cid: usize, j: usize, rng: &mut Rng, lines: &mut Vec<String>) {
+    let case = cx.case;
+    let m = &case.inputs[j];
+    let mut assets = Assets::new();
+    for ki in &m.keys {
+        match DescriptorPublicKey::from_str(&cx.pool.keys[*ki].desc) {
+            Ok(k) => assets = assets.add(k),
+            Err(_) => return,
+        }
+    }
+    for kind in &m.uses_hash {
+        let h = gen::hash_of(*kind, &cx.pool.preimages[*kind]);
+        assets = match kind {
+            0 => assets.add(sha256::Hash::from_slice(&h).unwrap()),
+            1 => assets.add(hash160::Hash::from_slice(&h).unwrap()),
+            2 => assets.add(ripemd160::Hash::from_slice(&h).unwrap()),
+            _ => assets.add(miniscript::hash256::Hash::from_slice(&h).unwrap()),
+        };
+    }
+    if let Some(rl) = m.sequence.to_relative_lock_time() {
+        if case.tx.version.0 >= 2 {
+            assets = assets.older(rl);
+        }
+    }
+    if m.sequence.enables_absolute_lock_time() {
+        assets = assets.after(case.tx.lock_time);
+    }
+    let d = m.desc.clone();
+    let plan = match catch_unwind(AssertUnwindSafe(|| d.into_plan(&assets))) {
+        Ok(Ok(p)) => p,
+        _ => return,
+    };
+    let mut g = base_psbt(case);
+    for i in 0..case.inputs.len() {
+        if i != j {
+            prepare_input(cx, &mut g, i, 2, rng);
+        }
+    }
+    let mut by_plan = g.clone();
+    let mut by_update = g;
+    plan.update_psbt_input(&mut by_plan.inputs[j]);
+    exec(cx, &mut by_update, &Op::Update { i: j, d: j });
+    let mut signing: Vec<Op> = (0..m.ecdsa_sigs.len()).map(|k| Op::Sig { i: j, key: k, variant: 0 }).collect();
+    if m.tap_key_sig.is_some() {
+        signing.push(Op::TapKeySig { i: j, bad: false });
+    }
+    for idx in 0..m.tap_script_sigs.len() {
+        signing.push(Op::TapScriptSig { i: j, idx, bad: false });
+    }
+    for kind in &m.uses_hash {
+        signing.push(Op::Preimage { i: j, kind: *kind, wrong: false });
+    }
+    for op in &signing {
+        exec(cx, &mut by_plan, op);
+        exec(cx, &mut by_update, op);
+    }
+    let ra = exec(cx, &mut by_update, &Op::FinalizeInp { i: j, mall: false, byval: false });
+    let rb = exec(cx, &mut by_plan, &Op::FinalizeInp { i: j, mall: false, byval: false });
+    lines.push(J::obj(vec![("t", J::s("probe-stats")), ("case", J::N(cid as i64)), ("plans", J::N(1))]).to_string());
+    if by_update.inputs[j].final_script_sig != by_plan.inputs[j].final_script_sig
+        || by_update.inputs[j].final_script_witness != by_plan.inputs[j].final_script_witness
+    {
+        lines.push(
+            J::obj(vec![
+                ("t", J::s("probe-viol")),
+                ("case", J::N(cid as i64)),
+                ("key", J::S(format!("plan-update-changes-finalization:{}", m.outer.name()))),
+                ("what", J::S(format!(
+                    "input {} ({}): prepared by Plan::update_psbt_input and signed it finalizes as {:?}, prepared by update_input_with_descriptor with the same signatures as {:?}",
+                    j, m.template, rb, ra
+                ))),
+            ])
+            .to_string(),
+        );
+    }
+    // and when the whole PSBT can be finalized, the plan-prepared one extracts to a valid transaction
+    let ea = exec(cx, &mut by_update, &Op::Finalize { mall: false, byval: false });
+    let eb = exec(cx, &mut by_plan, &Op::Finalize { mall: false, byval: false });
+    if ea == Res::Ok && eb == Res::Ok {
+        let mut v = Vec::new();
+        let checked = vec![true; case.inputs.len()];
+        monitor_extract(cx, 0, &by_plan, &checked, &mut v);
+        if by_plan.extract(&cx.vsecp).is_err() || !v.is_empty() {
+            lines.push(
+                J::obj(vec![
+                    ("t", J::s("probe-viol")),
+                    ("case", J::N(cid as i64)),
+                    ("key", J::S(format!("plan-update-extract:{}", m.outer.name()))),
+                    ("what", J::S(format!("input {} ({}): the plan-prepared, fully finalized PSBT does not extract to a valid transaction", j, m.template))),
+                ])
+                .to_string(),
+            );
+        }
+    }
+}
+
+// ------------------------------------------------------------------ the satisfier, called directly
+/// Differential oracle for PsbtInputSatisfier (round 4 seeds C01-7, C01-8, C03-7): the same
+/// inputs spent by transactions of version 1/2/3 with nLockTime and nSequence around the lock
+/// values (final and non-final inputs mixed, both units).  For every input
+///  (2) `check_after` / `check_older` of the PSBT satisfier are compared with BIP65/68/112
+///      arithmetic on (version, nLockTime, THIS input's nSequence) over a grid of lock values
+///      (the rows also go to Coq), and
+///  (1) `get_satisfaction` / `get_satisfaction_mall` are called directly; what they return is
+///      judged by the independent spend verification for THAT transaction, non-malleable results
+///      must not carry a signature the policy does not need, and a signature-complete input
+///      must get a satisfaction.
+fn satisfier_probe(pool: &Pool, case: &Case, cid: usize, rng: &mut Rng, nvar: usize, lines: &mut Vec<String>, st: &mut Stats) {
+    use miniscript::psbt::PsbtInputSatisfier;
+    use miniscript::Satisfier;
+    let n = case.inputs.len();
+    let mut pv = |lines: &mut Vec<String>, key: String, what: String| {
+        lines.push(J::obj(vec![("t", J::s("probe-viol")), ("case", J::N(cid as i64)), ("key", J::S(key)), ("what", J::S(what))]).to_string())
+    };
+    for _ in 0..nvar {
+        let version = [1i32, 2, 2, 2, 3][rng.below(5)];
+        let lock_time = [0u32, 499, 500, 600, 699, 700, 701, 500_000_600][rng.below(8)];
+        let seqs: Vec<u32> = (0..n)
+            .map(|j| {
+                let older = match &case.inputs[j].pol {
+                    _ => 5u32 + 5 * (rng.below(2) as u32),
+                };
+                [0xffff_ffffu32, 0xffff_ffff, 0xffff_fffe, 0xffff_fffd, 0, older - 1, older, older + 1, 4, 5, 9, 10, 11, (1 << 22) | older, (1 << 31) | older][rng.below(15)]
+            })
+            .collect();
+        let vc = match gen::revariant(pool, case, version, lock_time, &seqs) {
+            Ok(c) => c,
+            Err(_) => continue,
+        };
+        let cx = Ctx { pool, case: &vc, vsecp: Secp256k1::verification_only(), desc_base: 0 };
+        let mut psbt = base_psbt(&vc);
+        for i in 0..n {
+            let m = &vc.inputs[i];
+            exec(&cx, &mut psbt, &Op::Update { i, d: i });
+            for k in 0..m.ecdsa_sigs.len() {
+                exec(&cx, &mut psbt, &Op::Sig { i, key: k, variant: 0 });
+            }
+            for idx in 0..m.tap_script_sigs.len() {
+                exec(&cx, &mut psbt, &Op::TapScriptSig { i, idx, bad: false });
+            }
+            for kind in &m.uses_hash {
+                exec(&cx, &mut psbt, &Op::Preimage { i, kind: *kind, wrong: false });
+            }
+        }
+        let ctxt = format!("tx version {}, nLockTime {}, nSequences {:?}", version, lock_time, seqs);
+        for i in 0..n {
+            let m = &vc.inputs[i];
+            let sat = PsbtInputSatisfier::new(&psbt, i);
+            // (2) the two predicates
+            for nn in [1u32, 499, 500, 501, 599, 600, 601, 699, 700, 701, 499_999_999, 500_000_000, 500_000_600, 500_000_601] {
+                let lib = Satisfier::<bitcoin::PublicKey>::check_after(&sat, bitcoin::absolute::LockTime::from_consensus(nn));
+                let want = oracle::after_ok(lock_time, seqs[i], nn);
+                st.timelock_rows += 1;
+                lines.push(format!("{{\"t\":\"tl\",\"k\":0,\"ver\":{},\"lt\":{},\"seq\":{},\"n\":{},\"r\":{}}}", version, lock_time, seqs[i], nn, lib));
+                if lib != want {
+                    pv(lines, "timelock-predicate-mismatch:after".into(), format!("PsbtInputSatisfier::check_after({}) = {} for input {} but BIP65 says {} ({})", nn, lib, i, want, ctxt));
+                }
+            }
+            for (val, time) in [(1u16, false), (4, false), (5, false), (6, false), (9, false), (10, false), (11, false), (65535, false), (5, true), (10, true), (11, true)] {
+                let rl = if time { bitcoin::relative::LockTime::from_512_second_intervals(val) } else { bitcoin::relative::LockTime::from_height(val) };
+                let nn = (val as u32) | if time { 1 << 22 } else { 0 };
+                let lib = Satisfier::<bitcoin::PublicKey>::check_older(&sat, rl);
+                let want = oracle::older_ok(version, seqs[i], nn);
+                st.timelock_rows += 1;
+                lines.push(format!("{{\"t\":\"tl\",\"k\":1,\"ver\":{},\"lt\":{},\"seq\":{},\"n\":{},\"r\":{}}}", version, lock_time, seqs[i], nn, lib));
+                if lib != want {
+                    pv(lines, "timelock-predicate-mismatch:older".into(), format!("PsbtInputSatisfier::check_older({}{}) = {} for input {} but BIP68/112 say {} ({})", val, if time { " x512s" } else { " blocks" }, lib, i, want, ctxt));
+                }
+            }
+            // (1) the satisfier itself
+            let complete = signature_complete(&cx, &psbt, i);
+            for mall in [false, true] {
+                let d = m.desc.clone();
+                let r = catch_unwind(AssertUnwindSafe(|| {
+                    let sat = PsbtInputSatisfier::new(&psbt, i);
+                    if mall {
+                        d.get_satisfaction_mall(sat)
+                    } else {
+                        d.get_satisfaction(sat)
+                    }
+                }));
+                st.satisfier_calls += 1;
+                match r {
+                    Err(_) => pv(lines, "panic".into(), format!("get_satisfaction panicked for input {} ({}; {})", i, m.template, ctxt)),
+                    Ok(Err(e)) => {
+                        if complete {
+                            pv(lines, format!("satisfier-incomplete:{}", m.outer.name()),
+                               format!("get_satisfaction{} found nothing for the signature-complete input {} ({}; {}): {}", if mall { "_mall" } else { "" }, i, m.template, ctxt, e));
+                        }
+                    }
+                    Ok(Ok((wit, ssig))) => {
+                        st.satisfier_ok += 1;
+                        let w = Witness::from_slice(&wit);
+                        if let Err(e) = oracle::verify_spend(pool, &vc, i, &ssig, &w).and_then(|_| oracle::interpreter_accepts(pool, &vc, i, &ssig, &w)) {
+                            pv(lines, format!("satisfier-invalid-spend:{}", m.outer.name()),
+                               format!("get_satisfaction{} for input {} ({}) returned a witness that does not spend the output in this transaction ({}): {}", if mall { "_mall" } else { "" }, i, m.template, ctxt, e));
+                        } else if !mall {
+                            if let Some(k) = oracle::unneeded_signature(pool, &vc, i, &ssig, &w) {
+                                pv(lines, format!("satisfier-malleable:{}", m.outer.name()),
+                                   format!("get_satisfaction for input {} ({}) used the signature of key #{} although the spending condition holds without it in this transaction ({}): a third party can strip it", i, m.template, k, ctxt));
+                            }
+                        }
+                    }
+                }
+            }
+        }
+    }
+}
+
 // ------------------------------------------------------------------ entry
 pub fn run(args: &[String]) {
     let seed: u64 = args.first().and_then(|s| s.parse().ok()).unwrap_or(1);
@@ -1888,6 +2101,9 @@ pub fn run(args: &[String]) {
         updates_checked: 0,
         order_checks: 0,
         idem_checks: 0,
+        timelock_rows: 0,
+        satisfier_calls: 0,
+        satisfier_ok: 0,
     };
     let stdout = std::io::stdout();
     let mut w = std::io::BufWriter::new(stdout.lock());
@@ -1956,6 +2172,7 @@ pub fn run(args: &[String]) {
             .to_string(),
         );
         probes(&cx, cid, &mut int, &mut lines);
+        satisfier_probe(&pool, &case, cid, &mut Rng(seed ^ (cid as u64).wrapping_mul(0x5151_7C17_0077_1234)), if tier == "thorough" { 16 } else { 8 }, &mut lines, &mut st);
         for m in &case.inputs {
             if let Some(tap) = &m.tap {
                 for (ki, li, _, _) in &m.tap_script_sigs {
@@ -2230,6 +2447,47 @@ pub fn run(args: &[String]) {
                     }
                 }
             }
+            // (h) a taproot input listing several leaves of which only ONE is signed (every leaf in turn, so
+            //     the unsatisfiable ones come before and after it in the control-block map): the
+            //     finalizer must skip the leaves it cannot satisfy and finalize through the signed one
+            if ini < 2 {
+                for j in 0..nin {
+                    let m = &case.inputs[j];
+                    let nleaves = m.tap.as_ref().map(|t| t.leaves.len()).unwrap_or(0);
+                    if nleaves < 2 {
+                        continue;
+                    }
+                    let mut g = base_psbt(&case);
+                    for i in 0..nin {
+                        if i != j {
+                            prepare_input(&cx, &mut g, i, 2, &mut rng);
+                        }
+                    }
+                    for li in 0..nleaves {
+                        let mut ops = vec![if ini == 0 { Op::Update { i: j, d: j } } else { Op::SetScripts { i: j } }];
+                        for (idx, (_, l2, _, _)) in m.tap_script_sigs.iter().enumerate() {
+                            if *l2 == li {
+                                ops.push(Op::TapScriptSig { i: j, idx, bad: false });
+                            }
+                        }
+                        for kind in &m.uses_hash {
+                            ops.push(Op::Preimage { i: j, kind: *kind, wrong: false });
+                        }
+                        ops.push(Op::FinalizeInp { i: j, mall: false, byval: false });
+                        ops.push(Op::Finalize { mall: true, byval: false });
+                        ops.push(Op::Extract);
+                        run_history(&cx, &g, &ops, "one-leaf-signed", hid, cid, &mut int, &mut lines, &mut st);
+                        hid += 1;
+                    }
+                }
+            }
+            // (i) plan-driven preparation: Plan::update_psbt_input instead of the checked updater, same
+            //     signatures: must finalize to the same fields (every Sh inner type, wsh, tr, ...)
+            if ini == 0 {
+                for j in 0..nin {
+                    plan_differential(&cx, cid, j, &mut rng, &mut lines);
+                }
+            }
             // (c) the straight path: everything added, finalize, extract (must produce valid spends where possible)
             let mut ops: Vec<Op> = pool_ops.iter().filter(|o| matches!(o.kind(), "update" | "add-sig" | "add-tap-key-sig" | "add-tap-script-sig" | "add-preimage" | "add-unknown")).cloned().collect();
             ops.retain(|o| !matches!(o, Op::Update { i, d } if i != d));
@@ -2266,6 +2524,9 @@ pub fn run(args: &[String]) {
         ("updates_checked", J::N(st.updates_checked as i64)),
         ("order_checks", J::N(st.order_checks as i64)),
         ("idempotence_checks", J::N(st.idem_checks as i64)),
+        ("timelock_predicate_rows", J::N(st.timelock_rows as i64)),
+        ("direct_satisfier_calls", J::N(st.satisfier_calls as i64)),
+        ("direct_satisfier_witnesses_verified", J::N(st.satisfier_ok as i64)),
         ("distinct_input_states", J::N(int.map.len() as i64)),
     ]);
     let _ = writeln!(w, "{}", summary.to_string());
